@@ -142,7 +142,7 @@ func (a *aliasProg) prelude() {
 	a.show()
 }
 
-const c09Creates = 24
+const c09Creates = 27
 const c09Updates = 14
 
 // create adds an alias-creating step of the given kind; returns false if not applicable.
@@ -304,6 +304,39 @@ func (a *aliasProg) create(kind int) bool {
 		name := a.fresh("f")
 		a.declare(name, tArrAN, gen.Binary{Op: "*", L: vr("nn", tArrAN), R: nl(2), T: tArrAN})
 		a.stmts = append(a.stmts, gen.Assign{Target: gen.Index{X: gen.Index{X: vr(name, tArrAN), I: nl(0), T: tArrN}, I: nl(0), T: tNum}, Val: nl(99)})
+	case 24: // repetition of []any whose elements hold composites: deep copy reaches through any
+		arr, _ := a.pick(tArrN)
+		a.stmts = append(a.stmts, gen.Assign{Target: vr("xa", tArrA), Val: arrLit(tArrA, toAny(vr(arr.Name, tArrN)), toAny(vr("mn", tMapN)), toAny(vr("n", tNum)))})
+		name := a.fresh("f")
+		a.declare(name, tArrA, gen.Binary{Op: "*", L: vr("xa", tArrA), R: nl(2), T: tArrA})
+		u := a.fresh("u")
+		a.declare(u, tArrN, gen.Assert{X: gen.Index{X: vr(name, tArrA), I: nl(float64(3 * r.Intn(2))), T: tAny}, T: tArrN})
+		a.stmts = append(a.stmts, gen.If{Conds: []gen.Expr{gen.Binary{Op: ">", L: call("len", tNum, toAny(vr(u, tArrN))), R: nl(0), T: tBool}}, Blocks: [][]gen.Stmt{{
+			gen.Assign{Target: gen.Index{X: vr(u, tArrN), I: nl(0), T: tNum}, Val: nl(111)}}}})
+		w := a.fresh("w")
+		a.declare(w, tMapN, gen.Assert{X: gen.Index{X: vr(name, tArrA), I: nl(float64(1 + 3*r.Intn(2))), T: tAny}, T: tMapN})
+		a.stmts = append(a.stmts, gen.Assign{Target: gen.Dot{X: vr(w, tMapN), Key: "rep", T: tNum}, Val: nl(112)})
+	case 25: // repetition of an array of {}any whose values hold composites
+		tMapA := gen.MapOf(gen.TAny)
+		g := a.fresh("g")
+		arr, _ := a.pick(tArrN)
+		a.declare(g, tMapA, gen.MapLit{T: tMapA, Keys: []string{"k", "m"}, Vals: []gen.Expr{toAny(vr(arr.Name, tArrN)), toAny(vr("mm", tMapAN))}})
+		name := a.fresh("f")
+		a.declare(name, gen.ArrOf(tMapA), gen.Binary{Op: "*", L: arrLit(gen.ArrOf(tMapA), vr(g, tMapA)), R: nl(2), T: gen.ArrOf(tMapA)})
+		u := a.fresh("u")
+		a.declare(u, tArrN, gen.Assert{X: gen.Dot{X: gen.Index{X: vr(name, gen.ArrOf(tMapA)), I: nl(float64(r.Intn(2))), T: tMapA}, Key: "k", T: tAny}, T: tArrN})
+		a.stmts = append(a.stmts, gen.If{Conds: []gen.Expr{gen.Binary{Op: ">", L: call("len", tNum, toAny(vr(u, tArrN))), R: nl(0), T: tBool}}, Blocks: [][]gen.Stmt{{
+			gen.Assign{Target: gen.Index{X: vr(u, tArrN), I: nl(-1), T: tNum}, Val: nl(113)}}}})
+	case 26: // repetition of a nested array holding the any variable and []any
+		arr, _ := a.pick(tArrN)
+		a.stmts = append(a.stmts, gen.Assign{Target: vr("x", tAny), Val: toAny(vr(arr.Name, tArrN))})
+		a.stmts = append(a.stmts, gen.Assign{Target: vr("xa", tArrA), Val: arrLit(tArrA, vr("x", tAny), toAny(vr("nn", tArrAN)))})
+		name := a.fresh("f")
+		tAA := gen.ArrOf(tArrA)
+		a.declare(name, tAA, gen.Binary{Op: "*", L: arrLit(tAA, vr("xa", tArrA)), R: nl(float64(1 + r.Intn(2))), T: tAA})
+		u := a.fresh("u")
+		a.declare(u, tArrAN, gen.Assert{X: gen.Index{X: gen.Index{X: vr(name, tAA), I: nl(0), T: tArrA}, I: nl(1), T: tAny}, T: tArrAN})
+		a.stmts = append(a.stmts, gen.Assign{Target: gen.Index{X: gen.Index{X: vr(u, tArrAN), I: nl(0), T: tArrN}, I: nl(0), T: tNum}, Val: nl(114)})
 	}
 	return true
 }
